@@ -176,6 +176,13 @@ func (l *Log) CallsOf(rpc string) []Call {
 	return out
 }
 
+// AllCalls returns every recorded call in order.
+func (l *Log) AllCalls() []Call {
+	l.mu.Lock()
+	defer l.mu.Unlock()
+	return append([]Call(nil), l.Calls...)
+}
+
 // NumCalls returns the number of recorded calls.
 func (l *Log) NumCalls() int { l.mu.Lock(); defer l.mu.Unlock(); return len(l.Calls) }
 
